@@ -16,6 +16,31 @@ case "${1:-}" in
     else build sim; exec sim/target/release/buildsim replay "$f" "${3:-}"; fi ;;
   C20)
     build ttysim; exec ttysim/target/release/ttysim check C20 "${2:-quick}" ;;
+  C16|C19)
+    # two legs: the discrete-event engine, then the same property's clauses that need real
+    # threads and a terminal (output shown once / counts as rendered) under the shuttle engine
+    build sim; build ttysim
+    sim/target/release/buildsim check "$1" "${2:-quick}"; e1=$?
+    ttysim/target/release/ttysim check "$1" "${2:-quick}"; e2=$?
+    python3 - "$1" <<'PY'
+import json, sys, os
+p = sys.argv[1]
+main = f"/verif/evidence/{p}.json"; tty = f"/verif/evidence/{p}.tty.json"
+try:
+    m = json.load(open(main)); t = json.load(open(tty))
+    m["coverage"]["tty_leg"] = {k: t["coverage"].get(k) for k in ("evaluations", "distinct_nontrivial", "frames_rendered", "commands_executed", "simulated_seconds", "faults_fired", "probes", "replays", "components")}
+    m["coverage"]["tty_leg"]["violations"] = t.get("violations", 0)
+    m["violations"] = m.get("violations", 0) + t.get("violations", 0)
+    m["wall_s"] = m.get("wall_s", 0) + t.get("wall_s", 0)
+    json.dump(m, open(main, "w"), indent=2)
+    os.remove(tty)
+except Exception as ex:
+    print("harness error: evidence merge:", ex); sys.exit(2)
+PY
+    e3=$?
+    [ $e1 -eq 2 ] || [ $e2 -eq 2 ] || [ $e3 -eq 2 ] && exit 2
+    [ $e1 -eq 1 ] || [ $e2 -eq 1 ] && exit 1
+    exit 0 ;;
   C*)
     build sim; exec sim/target/release/buildsim check "$1" "${2:-quick}" ;;
   *) echo "usage: $0 <Cnn> quick|thorough | replay <file>"; exit 2 ;;
